@@ -63,7 +63,7 @@ fn offsets() -> Vec<i32> {
 
 pub fn workload(tier: Tier, progs: &[Prog]) -> Vec<Work> {
     let mut w = Vec::new();
-    let stride = tier.pick(3, 1);
+    let stride = tier.pick(1, 1);
     // A: every absolute address x {move, goto, break add, break remove}, decimal and hex spelling
     for (pi, _) in progs.iter().enumerate().take(tier.pick(2, 4)) {
         let mut a: u32 = 0;
